@@ -272,7 +272,8 @@ class DataPacketReceiver(Elaboratable):
                     with m.If(data_bytes_remaining > 4):
                         m.d.ss += data_bytes_remaining.eq(data_bytes_remaining - 4)
 
-                    with m.Else():
+                    # ... unless we've just bailed out with ``packet_bad`` above; that was our verdict.
+                    with m.Elif((sink.ctrl & source.valid) == 0):
                         m.next = "CHECK_CRC32"
 
 
